@@ -47,7 +47,7 @@ impl InferenceRule for MappingAccessRule {
                 val_ty,
                 TE::packed_of(vec![Span::new(
                     original_val_ty,
-                    p * WORD_SIZE_BITS,
+                    p.saturating_mul(WORD_SIZE_BITS),
                     WORD_SIZE_BITS,
                 )]),
             );
